@@ -1790,8 +1790,12 @@ impl ElementMut for XmlElement {
             return Err(error::DomException::WrongDocumentErr)?;
         }
 
-        if new_attr.attribute.borrow().owner_element().is_ok() {
-            return Err(error::DomException::InuseAttributeErr)?;
+        if let Ok(owner) = new_attr.attribute.borrow().owner_element() {
+            // in use as an attribute of another element; setting it on its own element again changes nothing
+            if !Rc::ptr_eq(&owner, &self.element) {
+                return Err(error::DomException::InuseAttributeErr)?;
+            }
+            return Ok(Some(new_attr.clone()));
         }
 
         let attr = self
